@@ -27,9 +27,9 @@ RULE = ('routing: histories of {logging <module|.|""|None|unknown> <level>, emit
         'thread per connection (logging requests and *IDN? through handle_request = under the dispatcher lock, '
         'remove_connection without it) and module threads emitting records; switch points before every dict operation on '
         'RemoteLogHandler.subscriptions (recording dict subclasses installed on the handler instance; __hash__ of the fake '
-        'connections used as keys; next() of the items() iterator in handle; acquire and release of Dispatcher._lock); '
-        'schedules: seeded sticky-random choice sequences, and for three two-thread scenarios (close vs enable, close vs off, '
-        'close vs emit) EVERY interleaving; each run is compared with the model operation by operation, then a probe sweep; '
+        'connections used as keys; items() of the module dict in handle; every send_reply; acquire and release of Dispatcher._lock); '
+        'schedules: seeded sticky-random choice sequences, and for four two-thread scenarios (close vs enable, close vs off, '
+        'close vs emit, subscribe vs emit) EVERY interleaving; each run is compared with the model operation by operation, then a probe sweep; '
         'non-trivial: a routing history with at least one delivery, a rotation with at least one rollover, a concurrent run '
         'in which at least two threads executed operations; distinct = distinct case contents (concurrent: distinct '
         'threads + executed interleaving)')
@@ -47,12 +47,12 @@ ASSUMPTIONS = [
     'are ordered, as in frappy.protocol.interface where handle() and finish() run in the thread of the connection); threads are '
     'interleaved at dict-operation granularity: every in-place operation of a builtin dict (setdefault, item assignment, pop, '
     'subscript, next of an items() iterator) is atomic (CPython, GIL); preemption inside such an operation is not explored',
-    'concurrent cases: WHAT a dict iterator yields while other threads modify the dict (incl. RuntimeError: dictionary changed '
-    'size during iteration, which then propagates into the logging call of the module thread) is CPython behaviour and enters '
-    'the model as data; the model checks every yielded item against its table and decides the delivery; the oracle judges '
-    'deliveries during the concurrent phase only for soundness (no message without a matching choice) and the state after '
-    'all threads finished exactly; a record missed by a subscriber because the iteration was aborted is outside the quantifier '
-    'of the property (sequences) and not reported',
+    'concurrent cases: handle (repaired by 641822e) takes its snapshot with list(subscriptions.items()), one atomic step for a '
+    'builtin dict (the harness records the content at the items() call and returns the real view, so a handle iterating the '
+    'live dict behaves as CPython makes it behave); every send_log is a step of its own; the oracle demands: logging a '
+    'record never raises into the emitting thread; a connection whose own thread has no request addressing the module, '
+    '*IDN? or close overlapping the emission (by the order of operation boundaries) receives the record exactly once iff '
+    'the level it chose before suffices; for the others only soundness (a level it had or chose at some time suffices)',
     'concurrent cases: records below DEBUG are not emitted by module threads (the logger drops them before the handler)',
 ]
 
@@ -387,57 +387,35 @@ def _isint(v):
     return isinstance(v, int) and not isinstance(v, bool)
 
 
-def enc_event(ev, recs_of):
-    """one observed atomic operation -> (thread, aop); anything the model has no step for becomes ABad"""
+def enc_event(ev):
+    """one observed atomic operation -> [(thread, oev)]; anything the model has no step for becomes OBad"""
     tid, kind = ev[0], ev[1]
     t = gal.nat(tid if _isnat(tid) else 999)
-    a = 'ABad'
+    a = 'OBad'
+    extra = []
     if kind == 'acq':
-        a = 'AAcq'
+        a = 'OAcq'
     elif kind == 'rel':
-        a = f'(ARel {MEXC[ev[2]]})' if ev[2] in MEXC else 'ABad'
+        a = f'(ORel {MEXC[ev[2]]})' if ev[2] in MEXC else 'OBad'
     elif kind == 'sd':
-        a = f'(ATab (TSetDefault {gstr(ev[2])}))'
+        a = f'(OTab (TSetDefault {gstr(ev[2])}))'
     elif kind == 'set' and _isnat(ev[3]) and _isint(ev[4]):
-        a = f'(ATab (TSet {gstr(ev[2])} {gal.nat(ev[3])} {gal.z(ev[4])}))'
+        a = f'(OTab (TSet {gstr(ev[2])} {gal.nat(ev[3])} {gal.z(ev[4])}))'
     elif kind == 'pop' and _isnat(ev[3]):
-        a = f'(ATab (TPop {gstr(ev[2])} {gal.nat(ev[3])}))'
+        a = f'(OTab (TPop {gstr(ev[2])} {gal.nat(ev[3])}))'
     elif kind == 'get':
-        a = f'(AGet {gstr(ev[2])} {gal.boolean(bool(ev[3]))})'
-    elif kind == 'next' and _isnat(ev[3]) and _isint(ev[4]):
-        rec = recs_of(tid)
-        if rec is not None:
-            sent = ev[5]
-            if not sent:
-                sn = 'None'
-            elif len(sent) == 1 and sent[0][0] == ev[3] and sent[0][1] == 'log' and sent[0][2] == ev[2]:
-                sn = f'(Some {gstr(sent[0][3])})'
-            else:
-                sn = f'(Some {gstr("?")})'
-            a = (f'(ANext {gstr(ev[2])} {gal.z(rec[1])} {gstr(rec[2])} {gal.nat(ev[3])} {gal.z(ev[4])} {sn})')
-    elif kind == 'end':
-        a = f'(AEnd {gal.boolean(bool(ev[3]))})'
-    return t, a
+        a = f'(OGet {gstr(ev[2])} {gal.boolean(bool(ev[3]))})'
+        if not ev[3]:
+            extra = [(t, 'OSkip')]       # handle returned: the model's thread skips its snapshot step
+    elif kind == 'snap' and all(_isnat(c) and _isint(v) for c, v in ev[3]):
+        a = '(OSnap %s [%s])' % (gstr(ev[2]), '; '.join(f'({gal.nat(c)}, {gal.z(v)})' for c, v in ev[3]))
+    elif kind == 'send' and _isnat(ev[2]) and ev[3] == 'log':
+        a = f'(OSend {gal.nat(ev[2])} {gstr(ev[4])} {gstr(ev[5])})'
+    return [(t, a)] + extra
 
 
 def enc_conc(case, obs):
-    # the record a reader step of an emitting thread belongs to: the one of its latest lookup (`get`) event
-    gets = {}
-    recs = {}
-    for k, th in enumerate(case['threads']):
-        if 'emit' in th:
-            res = obs['results'][k]
-            recs[k] = [[m, lv, (res[j].get('pyname') if j < len(res) else None) or ''] for j, (m, lv) in enumerate(th['emit'])]
-    def rec_of(t):
-        if t in recs and 0 <= gets.get(t, 0) - 1 < len(recs[t]):
-            return recs[t][gets[t] - 1]
-        return None
-
-    events = []
-    for ev in obs['events']:
-        if ev[1] == 'get' and ev[0] in recs:
-            gets[ev[0]] = gets.get(ev[0], 0) + 1
-        events.append(enc_event(ev, rec_of))
+    events = [x for ev in obs['events'] for x in enc_event(ev)]
     threads = []
     for k, th in enumerate(case['threads']):
         if 'conn' in th:
@@ -445,9 +423,10 @@ def enc_conc(case, obs):
             excs = '[' + '; '.join(EXC.get(r['exc'], '(Some XOther)') for r in obs['results'][k]) + ']'
             threads.append(f'TConn {enc_ops(th["ops"], steps)} {excs}')
         else:
-            prog = '[' + '; '.join(a for (_, a), ev in zip(events, obs['events']) if ev[0] == k) + ']'
-            rl = '[' + '; '.join(f'({gstr(m)}, {gal.z(lv)}, {gstr(py)})' for m, lv, py in recs[k]) + ']'
-            threads.append(f'TEmit {rl} {prog}')
+            res = obs['results'][k]
+            recs = [[m, lv, (res[j].get('pyname') if j < len(res) else None) or ''] for j, (m, lv) in enumerate(th['emit'])]
+            rl = '[' + '; '.join(f'({gstr(m)}, {gal.z(lv)}, {gstr(py)})' for m, lv, py in recs) + ']'
+            threads.append(f'TEmit {rl}')
     table = []
     for ent in obs['table']:
         m, l = ent
@@ -615,7 +594,10 @@ def oracle_conc(case, obs):
     receives a record exactly when its own latest accepted choice for the module is a level at or below the record's level
     (a closed connection: nothing) -- checked by the probe sweep, with the sequential oracle on the history
     `pre + the operations of every connection thread + sweep` (the order among different connections does not matter
-    to it).  WHILE the threads run: a message needs a level the connection had before or chose in its own thread."""
+    to it).  WHILE the threads run: logging a record never raises into the emitting thread; a connection whose own thread
+    does not touch its choice for the module during the emission (no overlapping request addressing the module, *IDN? or
+    close) receives the record exactly once iff the level it had chosen before suffices; otherwise a message needs a level
+    the connection had or chose at some time."""
     fails = []
 
     def fail(cls, what, **kw):
@@ -645,35 +627,76 @@ def oracle_conc(case, obs):
     for f in oracle_route({'mods': case['mods'], 'nconn': case['nconn'], 'ops': ops}, {'steps': steps}):
         where = 'after all threads finished' if f.get('op', 0) >= n_before else 'request of a thread'
         fails.append(dict(f, what=f'[{where}] ' + f['what']))
-    # messages sent while the threads ran
-    records = {}
+    # records emitted while the threads ran
+    def chosen_level(hist_ops, hist_res, m):
+        """the level the connection chose for m with the given (operation, result) history, None = off"""
+        cur = None
+        for o, r in zip(hist_ops, hist_res):
+            if o[0] in ('idn', 'disc'):
+                cur = None
+            elif o[0] == 'log' and r['exc'] is None and (o[2] in (None, '', '.') or o[2] == m):
+                sl = spec_level(o[3])
+                if sl is not None:
+                    num = SPEC_LEVELS[o[3].lower()] if isinstance(o[3], str) else int(o[3])
+                    cur = None if num == SPEC_LEVELS['off'] else num
+        return cur
+
+    def may_write(o, m):
+        return o[0] in ('idn', 'disc') or (o[0] == 'log' and (o[2] in (None, '', '.') or o[2] == m))
+
+    thread_of = {th['conn']: k for k, th in conn_threads(case)}
+    got = {}          # (connection, record id) -> messages
+    for c, msgs in enumerate(obs['during']):
+        for msg in msgs:
+            got.setdefault((c, msg[3] if isinstance(msg[3], str) else repr(msg[3])), []).append(msg)
+    known = set()
     for k, th in enumerate(case['threads']):
         for j, (m, lv) in enumerate(th.get('emit', [])):
-            records[f'e{1000 * (k + 1) + j}'] = (m, lv)
-    for c, msgs in enumerate(obs['during']):
-        levels = {}         # module -> levels the connection had at some time
-        hist = [o for o in case['pre'] if o[0] == 'log' and o[1] == c]
-        for _, th in conn_threads(case):
-            if th['conn'] == c:
-                hist += [o for o in th['ops'] if o[0] == 'log']
-        for o in hist:
-            sl = spec_level(o[3])
-            if sl is None:
+            rid = f'e{1000 * (k + 1) + j}'
+            known.add(rid)
+            if j >= len(obs['results'][k]):
                 continue
-            num = SPEC_LEVELS[o[3].lower()] if isinstance(o[3], str) else int(o[3])
-            for m in (case['mods'] if o[2] in (None, '', '.') else [o[2]]):
-                levels.setdefault(m, set()).add(num)
-        got = set()
-        for msg in msgs:
-            rec = records.get(msg[3]) if isinstance(msg[3], str) else None
-            if msg[0] != 'log' or rec is None or rec[0] != msg[1] or (rec[1] in SPEC_NAMES and SPEC_NAMES[rec[1]] != msg[2]) \
-                    or msg[3] in got:
-                fail('wrong-message', f'while the threads ran connection {c} got {msg}', conn=c)
-                continue
-            got.add(msg[3])
-            if not any(x <= rec[1] for x in levels.get(rec[0], ())):
-                fail('spurious-delivery', f'while the threads ran connection {c} got {msg} although it never chose a level '
-                     f'<= {rec[1]} for {rec[0]} (levels it ever chose: {sorted(levels.get(rec[0], ()))})', conn=c)
+            res = obs['results'][k][j]
+            if res['exc'] is not None:
+                fail('emit-raised', f'thread {k}: logging the record ({m}, {lv}) raised {res["exc"]} into the emitting thread',
+                     thread=k)
+            for c in range(case['nconn']):
+                msgs = got.get((c, rid), [])
+                pre_ops = [o for o in case['pre'] if o[0] != 'emit' and o[1] == c]
+                pre_res = [r for o, r in zip(case['pre'], obs['pre']) if o[0] != 'emit' and o[1] == c]
+                tk = thread_of.get(c)
+                t_ops = case['threads'][tk]['ops'] if tk is not None else []
+                t_res = obs['results'][tk] if tk is not None else []
+                # operations of the connection's own thread: finished before the emission started / overlapping it
+                before = [(o, r) for o, r in zip(t_ops, t_res) if r['t1'] <= res['t0']]
+                overlap = [o for o, r in zip(t_ops, t_res) if r['t1'] > res['t0'] and r['t0'] < res['t1']]
+                stable = not any(may_write(o, m) for o in overlap)
+                bad = [x for x in msgs if x[0] != 'log' or x[1] != m or (lv in SPEC_NAMES and x[2] != SPEC_NAMES[lv])]
+                if bad or len(msgs) > 1:
+                    fail('wrong-message', f'record {rid} ({m}, {lv}) emitted by thread {k}: connection {c} got {msgs}', conn=c)
+                    continue
+                if stable:
+                    # nobody else may write this connection's entry: it must get the record exactly when its level suffices
+                    level = chosen_level(pre_ops + [o for o, _ in before], pre_res + [r for _, r in before], m)
+                    want = level is not None and lv >= level
+                    if want and not msgs:
+                        fail('missed-delivery', f'record {rid} ({m}, {lv}) emitted by thread {k} while other threads ran: '
+                             f'connection {c} had chosen level {level} for {m}, its own thread did not touch that choice during '
+                             f'the emission, but it got nothing (emit raised {res["exc"]})', conn=c)
+                    elif msgs and not want:
+                        fail('spurious-delivery', f'record {rid} ({m}, {lv}) emitted by thread {k} while other threads ran: '
+                             f'connection {c} (level for {m}: {level if level is not None else "off"}, untouched during the '
+                             f'emission) got {msgs}', conn=c)
+                elif msgs:
+                    # its own thread was changing the choice meanwhile: any level it had or chose may have been in force
+                    levels = {chosen_level(pre_ops + list(t_ops[:n]), pre_res + list(t_res[:n]), m)
+                              for n in range(len(t_ops) + 1)}
+                    if not any(x is not None and x <= lv for x in levels):
+                        fail('spurious-delivery', f'record {rid} ({m}, {lv}): connection {c} got {msgs} although it never '
+                             f'chose a level <= {lv} for {m}', conn=c)
+    for (c, rid), msgs in got.items():
+        if rid not in known:
+            fail('wrong-message', f'while the threads ran connection {c} got {msgs} (no such record)', conn=c)
     return fails
 
 
@@ -724,12 +747,21 @@ def outcome_labels(case, obs):
                 owner = None
             elif e[1] in ('sd', 'set', 'pop') and owner is not None and e[0] != owner:
                 labs.add('conc-close-writes-while-a-request-holds-the-lock')
-            elif e[1] == 'end' and e[3]:
-                labs.add('conc-emit-raised-' + str(e[4]))
-            elif e[1] == 'next' and e[5]:
+            elif e[1] == 'send':
                 labs.add('conc-delivered-while-threads-run')
             elif e[1] == 'bad':
                 labs.add('conc-unmodelled-operation')
+        snaps = {}
+        for idx, e in enumerate(ev):
+            if e[1] == 'snap':
+                snaps[e[0]] = idx
+            elif e[1] in ('set', 'pop') and any(i < idx for t, i in snaps.items() if t != e[0]):
+                # a write after another thread's snapshot (its deliveries may still be going on)
+                labs.add('conc-write-after-a-snapshot-of-another-thread')
+        for k, th in enumerate(case['threads']):
+            for r in obs['results'][k] if 'emit' in th else []:
+                if r['exc']:
+                    labs.add('conc-emit-raised-' + str(r['exc']))
         if obs['status'] != 'ok':
             labs.add('conc-status-' + obs['status'])
         if any(any(x) for st in obs['sweep'] for x in st['sent']):
@@ -931,9 +963,12 @@ def templates():
     # connection 1 switches off while connection 0 re-identifies
     yield (['m0'], 2, [['log', 0, 'm0', 'debug'], ['log', 1, 'm0', 'info']],
            [{'conn': 0, 'ops': [['disc', 0]]}, {'conn': 1, 'ops': [['log', 1, 'm0', 'off']]}], [4, 5])
-    # a record is being handled while a connection closes
+    # a record is being handled (lookup, snapshot, two deliveries) while a connection closes
     yield (['m0'], 2, [['log', 0, 'm0', 'debug'], ['log', 1, 'm0', 'info']],
            [{'conn': 0, 'ops': [['disc', 0]]}, {'emit': [['m0', 20]]}], [4, 5])
+    # ... while a third connection subscribes (the dict grows during the emission)
+    yield (['m0'], 3, [['log', 0, 'm0', 'debug'], ['log', 1, 'm0', 'info']],
+           [{'conn': 2, 'ops': [['log', 2, 'm0', 'debug']]}, {'emit': [['m0', 20]]}], [5, 5])
 
 
 def template_cases(full):
